@@ -523,6 +523,59 @@ impl<'a> Ctx<'a> {
   }
 
   fn match_expr(&mut self, m: &syn::ExprMatch, expected: Option<&Ty>) -> R<Tr> {
+    // shape 0: Result scrutinee with `Err(e) => E`, `Ok(x) if G => A`, `Ok(..) => B` (the guarded arm first)
+    if m.arms.len() == 3 {
+      let mut err_arm = None;
+      let mut guarded = None;
+      let mut plain = None;
+      let mut ok_shape = true;
+      for arm in &m.arms {
+        if let syn::Pat::TupleStruct(ts) = &arm.pat {
+          let n = path_str(&ts.path);
+          if n == "Err" && ts.elems.len() == 1 && arm.guard.is_none() && err_arm.is_none() {
+            err_arm = Some((&ts.elems[0], &*arm.body));
+            continue;
+          }
+          if n == "Ok" && ts.elems.len() == 1 {
+            match (&arm.guard, guarded.is_some(), plain.is_some()) {
+              (Some((_, g)), false, false) => { guarded = Some((&ts.elems[0], &**g, &*arm.body)); continue; }
+              (None, true, false) => { plain = Some((&ts.elems[0], &*arm.body)); continue; }
+              _ => {}
+            }
+          }
+        }
+        ok_shape = false;
+        break;
+      }
+      if let (true, Some((errp, errb)), Some((gp, gcond, gb)), Some((pp, pb))) = (ok_shape, err_arm, guarded, plain) {
+        let scr = self.expr(&m.expr, None)?;
+        let (okty, errty) = match &scr.ty {
+          Ty::Result(a, b) => ((**a).clone(), (**b).clone()),
+          other => return Err(format!("Ok/Err match on non-Result {:?}", other)),
+        };
+        let depth = self.vars.len();
+        // the guarded arm and the fall-through arm see the same Ok payload
+        let gbind = self.bind_pat(gp, &okty)?;
+        let g = self.expr(gcond, Some(&Ty::Bool))?;
+        if g.ty != Ty::Bool { return Err("match guard is not bool".into()); }
+        let a = self.expr(gb, expected)?;
+        self.vars.truncate(depth);
+        let pbind = self.bind_pat(pp, &okty)?;
+        let b = self.expr(pb, expected)?;
+        self.vars.truncate(depth);
+        let errbind = self.bind_pat(errp, &errty)?;
+        let e = self.expr(errb, expected)?;
+        self.vars.truncate(depth);
+        let ty = if a.ty != Ty::Never { a.ty.clone() } else if b.ty != Ty::Never { b.ty.clone() } else { e.ty.clone() };
+        let (al, bl, el) = (a.lifted(), b.lifted(), e.lifted());
+        let inner_b = format!("(let {} := t_ok in {})", pat_paren(&pbind), bl);
+        let (gcode, _) = self.seq(vec![g], |n| (format!("(if {} then {} else {})", n[0], al, inner_b), false));
+        let (code, pure) = self.seq(vec![scr], |n| {
+          (format!("match {} with\n   | Ok t_ok => (let {} := t_ok in {})\n   | Err {} => {}\n   end", n[0], pat_paren(&gbind), gcode, pat_paren(&errbind), el), false)
+        });
+        return Ok(Tr { code: format!("({})", code), ty, pure });
+      }
+    }
     // shape 1: Result scrutinee with an Ok arm and an Err arm
     let mut ok_arm = None;
     let mut err_arm = None;
@@ -849,6 +902,12 @@ impl<'a> Ctx<'a> {
         let f = if raw { "raw_slice" } else { "from_raw_parts" };
         let (code, pure) = self.seq(vec![p, n], |v| (format!("({} {} {} {})", f, et, v[0], v[1]), raw));
         return Ok(Tr { code, ty: Ty::Ref(Box::new(Ty::SliceOf(Box::new(elem)))), pure });
+      }
+      ("CheckedCastError::PodCastError", _) if args.len() == 1 => {
+        let x = self.expr(args[0], Some(&Ty::PErr))?;
+        if x.ty != Ty::PErr { return Err("PodCastError(..) of a non-PodCastError".into()); }
+        let (code, pure) = self.seq(vec![x], |n| (format!("(PodCastError {})", n[0]), true));
+        return Ok(Tr { code, ty: Ty::CErr, pure });
       }
       ("Ok", _) if args.len() == 1 => {
         let (ea, eb) = match expected {
